@@ -6,6 +6,8 @@ package drpcsignal
 import (
 	"sync"
 	"sync/atomic"
+
+	"storj.io/drpc/drpcdebug"
 )
 
 var closed = make(chan struct{})
@@ -27,10 +29,12 @@ func (c *Chan) do(f func()) bool {
 func (c *Chan) doSlow(f func()) bool {
 	c.mu.Lock()
 	defer c.mu.Unlock()
+	drpcdebug.Point("chan.do.locked", c)
 
 	if c.done == 0 {
 		defer atomic.StoreUint32(&c.done, 1)
 		f()
+		drpcdebug.Point("chan.do.ran", c)
 		return true
 	}
 	return false
